@@ -34,7 +34,10 @@ META = {
         "Structural necessary conditions of transparent nested parsing, decided over syntax trees, CFGs and the call graph. "
         "R1 one engine: inside render code (everything reachable from DocutilsRenderer.render) markdown-it is entered only in "
         "nested_render_text, on the renderer's own parser (self.md), with the shared environment (self.md_env) and the text "
-        "parameter; the inline flag selects parseInline; no second engine is built and render() is not re-entered; md/md_env "
+        "parameter; the inline flag selects parseInline; a block parse of nested text runs with the front-matter rule disabled "
+        "(inside a reset_rules() context, rule name checked against the library's block rules) unless the caller declares the "
+        "text a whole file, which only callers whose text is read from a file may do; no second engine is built and render() is "
+        "not re-entered; md/md_env "
         "are bound once from the constructor/setup_render parameters, and nothing markdown-it registered in md_env is taken out "
         "again (no clear/popitem, pop/del only of the keys MyST stores itself - a snapshot restored after a nested render loses "
         "the reference definitions and footnotes registered in between); _render_tokens is reached only from render and "
@@ -49,7 +52,8 @@ META = {
         "fresh container whose children it returns, include and substitution in place, the div into a fresh appended container; "
         "current_node_context appends (under its flag) before switching, switches, and restores the saved node. "
         "R4 state: every piece of renderer/document/env state changed around a nested render is put back to the value saved "
-        "before it - in the context manager entered around _render_tokens (closure or method; followed through helpers) and in "
+        "before it (the restore runs at least whenever the change ran, and only where the saved value exists) - in the context "
+        "manager entered around _render_tokens (closure or method; followed through helpers) and in "
         "the try/finally of the include mock (in run() itself or in a context manager it enters; restore by assignment of the "
         "saved local, by swapping the mapping back, or by update() from a snapshot); an option-driven env setting of the include "
         "(relative-images, relative-docs) is overridden only on the path where the include carries that option - otherwise the "
@@ -71,9 +75,13 @@ META = {
         "fields and `return helper(...)` delegation tracked individually, so that e.g. dedent() of the option block does not "
         "count against the body) - uses whose "
         "result is only tested are ignored - and the Jinja environment used for substitutions (built in the function, a helper or "
-        "an instance attribute) has no autoescape/finalize. "
+        "an instance attribute or a module constant; plain or sandboxed) has no autoescape/finalize; removing exactly a leading "
+        "byte order mark is not a change of the text, and the included file's text must pass such a removal (or be read as "
+        "utf-8-sig), as docutils' input layer does for the document itself. "
         "R7 rule lookups: a test '<rule>' in md.get_active_rules()[<chain>] names a rule that markdown-it or a configured plugin "
-        "registers on that chain (catalogue read from the library sources); a rule looked up in the wrong chain is a constant test."
+        "registers on that chain (catalogue read from the library sources); a rule looked up in the wrong chain is a constant test. "
+        "R8 input limits: a per-line limit that the docutils front end checks on the document text (settings.line_length_limit) "
+        "is also consulted by the include mock for the text of an included file (today it is not: known finding)."
     ),
     "not_decided": (
         "Node-for-node equality of render(W(X)) and render(X) (needs the trees). Known to fail by construction and NOT reported: "
@@ -85,7 +93,10 @@ META = {
         "exceptions raised by statements outside a try (the CFG has exception edges only inside try bodies), `{eval-rst}` being "
         "dispatched by the back-tick fence only (its body is rST, outside the property's wrappers). Whether an option block is "
         "looked for at all (truthiness vs None test of option_spec) and where the option block ends (the terminator regex and the "
-        "slice after it) belong to the directive-text split and are decided by C08.R4 / C08.R6, not here."
+        "slice after it) belong to the directive-text split and are decided by C08.R4 / C08.R6, not here. That a thematic break "
+        "nested in a block quote / list item / directive body survives docutils' Transitions transform in place (repair 2ea1b0a: "
+        "HideNestedTransitions registered before Transitions in both front ends) is the subject of C03.R1 / C01.R17, which model "
+        "that repair; C06 has no further structural clause on it."
     ),
     "trusted_base": [
         "CPython ast",
@@ -102,6 +113,7 @@ META = {
 }
 
 RENDERER = "mdit_to_docutils.base:DocutilsRenderer"
+ENV_CLASSES = ("jinja2.Environment", "jinja2.environment.Environment", "jinja2.sandbox.SandboxedEnvironment", "jinja2.sandbox.ImmutableSandboxedEnvironment")
 ENGINE_METHODS = ("parse", "parseInline", "render", "renderInline")
 
 
@@ -640,18 +652,88 @@ def r1_one_engine(corpus: Corpus, rep: Report, tier: str):
 
     # (a2) inline flag selects parseInline
     ip = _pos_params(nrt)
-    for call in _fn_calls(nrt):
-        if isinstance(call.func, ast.Attribute) and call.func.attr in ("parse", "parseInline") and unparse(call.func.value).endswith("md"):
-            pol = _selected_when(call, nrt)
-            k = f"{nrt.fq}|{call.func.attr} selected by the inline flag"
-            if pol is None:
-                rep.error("C06.R1", f"{nrt.module.site(call)}: cannot tell under which value of the inline flag `{short(call, 50)}` runs")
-            elif (pol[0] in ip) and pol[1] == (call.func.attr == "parseInline") and pol[0] == "inline":
-                rep.ok("C06.R1", k, nrt.module.site(call))
-            elif pol[0] in ip and pol[1] == (call.func.attr == "parseInline"):
-                rep.ok("C06.R1", k, nrt.module.site(call), f"flag parameter {pol[0]}")
+    eng = [c for c in _fn_calls(nrt) if isinstance(c.func, ast.Attribute) and c.func.attr in ("parse", "parseInline") and unparse(_deref(c.func.value, nrt) or c.func.value).endswith("md")]
+    facts_of = {id(c): _flag_facts(c, nrt) for c in eng}
+    inl_calls = [c for c in eng if c.func.attr == "parseInline"]
+    flags = set.intersection(*({nm for nm, pol in facts_of[id(c)] if pol and nm in ip} for c in inl_calls)) if inl_calls else set()
+    if inl_calls and not flags:
+        # parseInline may run under the flag's falsity (inverted) or under no flag at all
+        inv = set.intersection(*({nm for nm, pol in facts_of[id(c)] if not pol and nm in ip} for c in inl_calls))
+        for c in inl_calls:
+            k = f"{nrt.fq}|{c.func.attr} selected by the inline flag"
+            if inv:
+                rep.violation("C06.R1", k, nrt.module.site(c), f"parseInline() runs when `{sorted(inv)[0]}` is False: block text would be tokenised with the inline rules (or vice versa)")
             else:
-                rep.violation("C06.R1", k, nrt.module.site(call), f"{call.func.attr}() runs when `{pol[0]}` is {pol[1]}: block text would be tokenised with the inline rules (or vice versa)")
+                rep.error("C06.R1", f"{nrt.module.site(c)}: cannot tell under which value of the inline flag `{short(c, 50)}` runs")
+    else:
+        flag = "inline" if "inline" in flags else (sorted(flags)[0] if flags else None)
+        for c in eng:
+            k = f"{nrt.fq}|{c.func.attr} selected by the inline flag"
+            want = c.func.attr == "parseInline"
+            if flag is None:
+                rep.error("C06.R1", f"{nrt.module.site(c)}: no parseInline call found to identify the inline flag")
+            elif (flag, want) in facts_of[id(c)]:
+                rep.ok("C06.R1", k, nrt.module.site(c), f"runs when `{flag}` is {want}")
+            elif (flag, not want) in facts_of[id(c)]:
+                rep.violation("C06.R1", k, nrt.module.site(c), f"{c.func.attr}() runs when `{flag}` is {not want}: block text would be tokenised with the inline rules (or vice versa)")
+            else:
+                rep.violation("C06.R1", k, nrt.module.site(c), f"{c.func.attr}() does not depend on `{flag}`: it also runs for {'block' if want else 'inline'} text")
+
+    # (a3) nested text is parsed without the front-matter rule unless it is a whole file
+    cat = corpus.cache("c06-rule-catalogue", lambda: _rule_catalogue(corpus, rep))
+    fm_rules = sorted(r for r in cat["block"] if "front" in r and "matter" in r)
+    if len(fm_rules) != 1:
+        raise Unsupported(f"front-matter block rule not identified in the catalogue ({fm_rules})")
+    FM = fm_rules[0]
+    flag_now = next((nm for c in eng if c.func.attr == "parseInline" for nm, pol in facts_of[id(c)] if pol and nm in ip), None)
+    allow_params: set[str] = set()
+    for c in eng:
+        if c.func.attr != "parse":
+            continue
+        k = f"{nrt.fq}|block parse of nested text runs without the {FM} rule unless the text is a whole file"
+        site = nrt.module.site(c)
+        pos = sorted(nm for nm, pol in facts_of[id(c)] if pol and nm in ip and nm != flag_now)
+        if pos:
+            allow_params |= set(pos)
+            rep.ok("C06.R1", k + f" [under {pos[0]}]", site, f"front matter accepted only when `{pos[0]}` is given")
+            continue
+        cfg_ = get_cfg(nrt)
+        st_ = cfg_.stmt_of(c)
+        withs = [a for a in ancestors(c) if isinstance(a, ast.With) and any(isinstance(i.context_expr, ast.Call) and isinstance(i.context_expr.func, ast.Attribute) and i.context_expr.func.attr == "reset_rules" for i in a.items)]
+        dis = [
+            n for n in nrt.local_nodes()
+            if isinstance(n, ast.Call) and isinstance(n.func, ast.Attribute) and n.func.attr == "disable" and n.args and any(isinstance(x, ast.Constant) and x.value == FM for x in ast.walk(n.args[0]))
+        ]
+        good = [d for d in dis if withs and any(d in ast.walk(w) for w in withs) and cfg_.dominates(cfg_.stmt_of(d), st_) and cfg_.stmt_of(d) is not st_]
+        other = [n for n in nrt.local_nodes() if isinstance(n, ast.Call) and isinstance(n.func, ast.Attribute) and n.func.attr == "disable" and n not in dis]
+        if good:
+            rep.ok("C06.R1", k, site, f"`{short(good[0], 50)}` inside `with ...reset_rules()` precedes the parse")
+        elif dis and not withs:
+            rep.violation("C06.R1", k, site, f"`{short(dis[0], 50)}` is not undone by a reset_rules() context around this parse: the rule stays disabled for later renders (and for the document itself on re-use)")
+        else:
+            hint = f" (`{short(other[0], 50)}` does not name the block rule {FM!r})" if other else ""
+            rep.violation(
+                "C06.R1",
+                k,
+                site,
+                f"nested block text is tokenised with the {FM} rule active{hint}: a directive body, div or substitution value that starts with '---' and contains a later '---' "
+                "is swallowed as front matter and dropped, whereas the same text at top level is two thematic breaks around content",
+            )
+    for fi, call in callers_nrt_list(g, nrt):
+        m_ = _callee_param_index(nrt, call)
+        for pn in sorted(allow_params):
+            a_ = m_.get(ip.index(pn)) if pn in ip else None
+            a_ = a_ if a_ is not None else m_.get(pn)
+            if a_ is None or (isinstance(a_, ast.Constant) and not a_.value):
+                continue
+            k = f"{fi.fq}|{pn} passed only for the text of a file"
+            is_read_ = lambda x: isinstance(x, ast.Call) and isinstance(x.func, ast.Attribute) and x.func.attr in ("read_text", "read", "read_bytes")
+            text = m_.get(0)
+            from_file = text is not None and _derives(text, fi, lambda n: is_read_(n) or (isinstance(n, ast.Call) and _package_callee(n, fi) is not None and any(is_read_(y) for y in _package_callee(n, fi).local_nodes())))
+            if from_file:
+                rep.ok("C06.R1", k, fi.module.site(call), "the text is read from a file (its front matter is discarded)")
+            else:
+                rep.violation("C06.R1", k, fi.module.site(call), f"{pn}={unparse(a_)} for text that is not a whole file: a body starting with '---' ... '---' is taken as front matter and dropped instead of being rendered as at top level")
 
     # (b) fresh engines inside render code
     for fi in corpus.all_functions():
@@ -834,6 +916,35 @@ def r1_one_engine(corpus: Corpus, rep: Report, tier: str):
     else:
         rep.violation("C06.R1", k, it.site(), "MockState.inline_text does not hand its text to MockInliner.parse")
     rep.expect_min("C06.R1", 12, "engine calls, md/md_env bindings, _render_tokens callers, nested entries")
+
+
+def callers_nrt_list(g, nrt: FunctionInfo) -> list[tuple[FunctionInfo, ast.Call]]:
+    return sorted(g.callers().get(nrt.fq, []), key=lambda x: (x[0].fq, x[1].lineno))
+
+
+def _flag_facts(call: ast.Call, fi: FunctionInfo) -> set[tuple[str, bool]]:
+    """(name, truth value) facts about plain names that hold whenever ``call`` is evaluated (statement guards and
+    enclosing conditional expressions)."""
+    out: set[tuple[str, bool]] = set()
+    node: ast.AST = call
+    for a in ancestors(call):
+        if isinstance(a, (ast.FunctionDef, ast.AsyncFunctionDef, ast.Lambda)):
+            break
+        if isinstance(a, ast.IfExp) and node is not a.test:
+            from ..flow import facts as _facts
+
+            for t, pol in _facts(a.test, node is a.body):
+                if isinstance(t, ast.Name):
+                    out.add((t.id, pol))
+        node = a
+    try:
+        cfg = get_cfg(fi)
+        for t, pol in cfg.guards(cfg.stmt_of(call)):
+            if isinstance(t, ast.Name):
+                out.add((t.id, pol))
+    except Unsupported:
+        pass
+    return out
 
 
 def _selected_when(call: ast.Call, fi: FunctionInfo) -> tuple[str, bool] | None:
@@ -1342,8 +1453,13 @@ def _r4_restore_pairs(rep: Report, rs: FunctionInfo) -> None:
             sv = saves.get(ra.value.id)
             if sv is None or sv[0] != key:
                 continue
-            if _guard_sig(cfg, ra) != _guard_sig(cfg, guard_of):
-                return False, f"the restore `{short(ra, 50)}` runs under {_guard_sig(cfg, ra) or 'no condition'} but the change under {_guard_sig(cfg, guard_of) or 'no condition'}"
+            g_restore, g_change, g_save = set(_guard_sig(cfg, ra)), set(_guard_sig(cfg, guard_of)), set(_guard_sig(cfg, sv[1]))
+            # the restore must run at least whenever the state was changed (restoring an unchanged value is a no-op),
+            # and the saved value must exist whenever the restore runs
+            if not g_restore <= g_change:
+                return False, f"the restore `{short(ra, 50)}` runs only under {sorted(g_restore)} but the change under {sorted(g_change) or 'no condition'}"
+            if not g_save <= g_restore:
+                return False, f"the restore `{short(ra, 50)}` runs under {sorted(g_restore) or 'no condition'} but the value is saved only under {sorted(g_save)}"
             return True, short(ra, 60)
         return False, f"no statement after the yield stores the saved value back into {key}"
 
@@ -2046,8 +2162,31 @@ PREDICATE_METHODS = {"startswith", "endswith", "isspace", "isalpha", "isdigit", 
 PREDICATE_FUNCS = {"len", "bool", "any", "all", "isinstance", "int"}
 
 
-def _names_in(e: ast.AST) -> set[str]:
-    return {n.id for n in ast.walk(e) if isinstance(n, ast.Name)}
+def _comp_iter_of(x: ast.Name) -> ast.AST | None:
+    """The iterable a comprehension variable ranges over (None if ``x`` is not bound by an enclosing comprehension)."""
+    for a in ancestors(x):
+        if isinstance(a, (ast.ListComp, ast.SetComp, ast.GeneratorExp, ast.DictComp)):
+            for gen in a.generators:
+                if any(isinstance(t, ast.Name) and t.id == x.id for t in ast.walk(gen.target)):
+                    return gen.iter
+        if isinstance(a, (ast.FunctionDef, ast.AsyncFunctionDef, ast.Lambda)):
+            break
+    return None
+
+
+def _names_in(e: ast.AST, _depth: int = 0) -> set[str]:
+    """Names an expression depends on; a comprehension variable stands for the names of the iterable it ranges over
+    (it is local to its comprehension and must not connect two comprehensions that happen to reuse the name)."""
+    out: set[str] = set()
+    for n in ast.walk(e):
+        if not isinstance(n, ast.Name):
+            continue
+        it = _comp_iter_of(n) if _depth < 4 else None
+        if it is None:
+            out.add(n.id)
+        elif isinstance(n.ctx, ast.Load):
+            out |= _names_in(it, _depth + 1)
+    return out
 
 
 def _root_name(e: ast.AST) -> str | None:
@@ -2069,7 +2208,7 @@ def _bindings(fi: FunctionInfo) -> list[tuple[set[str], ast.AST]]:
             out.append(({x.id for t in n.targets for x in ast.walk(t) if isinstance(x, ast.Name)}, n.value))
         elif isinstance(n, (ast.AnnAssign, ast.AugAssign)) and n.value is not None:
             out.append(({x.id for x in ast.walk(n.target) if isinstance(x, ast.Name)}, n.value))
-        elif isinstance(n, (ast.For, ast.comprehension)):
+        elif isinstance(n, ast.For):
             out.append(({x.id for x in ast.walk(n.target) if isinstance(x, ast.Name)}, n.iter))
         elif isinstance(n, ast.withitem) and n.optional_vars is not None:
             out.append(({x.id for x in ast.walk(n.optional_vars) if isinstance(x, ast.Name)}, n.context_expr))
@@ -2145,6 +2284,21 @@ def _destination(call: ast.Call, sinks: list[ast.AST]) -> tuple[str, set[str]]:
             return "dropped", set()
         node = a
     return "dropped", set()
+
+
+def _strips_bom(n: ast.AST) -> bool:
+    """``x.removeprefix("\\ufeff")`` / ``x.lstrip("\\ufeff")``: drops nothing but a leading byte order mark."""
+    return (
+        isinstance(n, ast.Call)
+        and isinstance(n.func, ast.Attribute)
+        and n.func.attr in ("removeprefix", "lstrip")
+        and len(n.args) == 1
+        and not n.keywords
+        and isinstance(n.args[0], ast.Constant)
+        and isinstance(n.args[0].value, str)
+        and n.args[0].value != ""
+        and set(n.args[0].value) == {"\ufeff"}
+    )
 
 
 def _bound_params(h: FunctionInfo, call: ast.Call, carries) -> set[str]:
@@ -2224,6 +2378,8 @@ def _text_conserved(rep: Report, fi: FunctionInfo, seeds: set[str], sinks: list[
     for n in nodes_:
         if not isinstance(n, ast.Call):
             continue
+        if _strips_bom(n):
+            continue  # not a change of the text: the mark belongs to the encoding (docutils' input layer drops it too)
         if _is_splitlines(n) and carries(n.func.value):
             pass  # splits at \f, \v, \x1c-\x1e, \x85, U+2028/9 too: re-joined with "\n" the text is not the same
         elif _line_splitter(_package_callee(n, fi)) == "universal" and any(carries(a) for a in n.args):
@@ -2406,6 +2562,34 @@ def r6_text_conserved(corpus: Corpus, rep: Report, tier: str):
             if rets and (hseeds or any(is_read(y) for r in rets for y in ast.walk(r))):
                 _text_conserved(rep, h, hseeds or {"<read>"}, rets, "the included file's text", f"the text returned by {h.name}()", source_pred=is_read)
     _text_conserved(rep, inc, seeds, nrt_text_args(inc), "the included file's text", "the nested parse", source_pred=is_src)
+    # the byte order mark of the file is not part of its text (docutils' input layer drops it for the top-level file)
+    helpers_ = [h_ for h_ in (_package_callee(x, inc) for x in inc.local_nodes() if isinstance(x, ast.Call)) if h_ is not None and not h_.is_lambda and h_.fq != inc.fq]
+    scope_f = [inc] + [h_ for h_ in helpers_ if reads_file(h_) or any(_strips_bom(y) for y in h_.local_nodes())]
+    bom = None
+    for f_ in {x.fq: x for x in scope_f}.values():
+        fseeds = set()
+        for names, val in _bindings(f_):
+            if any((is_src(x) if f_.fq == inc.fq else is_read(x)) for x in ast.walk(val)):
+                fseeds |= names
+        fcar = _forward(f_, fseeds | (set(f_.params) if f_.fq != inc.fq else set()))
+        for n in f_.local_nodes():
+            if _strips_bom(n) and (_names_in(n.func.value) & fcar or any(is_read(x) or is_src(x) for x in ast.walk(n.func.value))):
+                bom = (n, f_)
+            if is_read(n):
+                enc = kwarg(n, "encoding")
+                if isinstance(enc, ast.Constant) and str(enc.value).lower().replace("_", "-") == "utf-8-sig":
+                    bom = (n, f_)
+    k = f"{inc.fq}|a byte order mark is dropped from the included file's text"
+    if bom is not None:
+        rep.ok("C06.R6", k, bom[1].module.site(bom[0]), short(bom[0], 60))
+    else:
+        rep.violation(
+            "C06.R6",
+            k,
+            inc.module.site(nrt_text_args(inc)[0]) if nrt_text_args(inc) else inc.site(),
+            "the file is read with read_text() and nothing removes a leading U+FEFF: the mark stays in front of the first line of an included UTF-8 file, so a first "
+            "heading, list item or target is rendered as literal paragraph text, while docutils' input layer strips the mark of the same text when it is the document itself",
+        )
     # 6. substitution
     sub = corpus.func(f"{RENDERER}.render_substitution")
     seeds = set()
@@ -2414,7 +2598,6 @@ def r6_text_conserved(corpus: Corpus, rep: Report, tier: str):
         if any(is_tmpl(x) for x in ast.walk(val)):
             seeds |= names
     _text_conserved(rep, sub, seeds, nrt_text_args(sub), "the substitution's value", "the nested parse", source_pred=is_tmpl)
-    ENV_CLASSES = ("jinja2.Environment", "jinja2.environment.Environment", "jinja2.sandbox.SandboxedEnvironment", "jinja2.sandbox.ImmutableSandboxedEnvironment")
     is_env = lambda c, f: isinstance(c, ast.Call) and f.module.resolve(dotted(c.func) or "") in ENV_CLASSES
     # the function itself, the package helpers it calls (two levels), and instance attributes they read
     scope = {sub.fq: sub}
@@ -2513,7 +2696,7 @@ def _rule_catalogue(corpus: Corpus, rep: Report) -> dict[str, set[str]]:
 def r7_rule_lookups(corpus: Corpus, rep: Report, tier: str):
     _use(corpus)
     rep.rule("C06.R7", "a test '<rule>' in md.get_active_rules()[<chain>] names a rule that markdown-it / the configured plugins register on that chain (a rule looked up in the wrong chain is a constant-false test)")
-    cat = _rule_catalogue(corpus, rep)
+    cat = corpus.cache("c06-rule-catalogue", lambda: _rule_catalogue(corpus, rep))
     sane = {"fence", "paragraph"} <= cat["block"] and "colon_fence" in cat["block"] and {"text", "backticks"} <= cat["inline"] and "inline" in cat["core"] and "emphasis" in cat["inline2"]
     if not sane:
         raise Unsupported(f"rule catalogue not understood (block={len(cat['block'])}, inline={len(cat['inline'])}, core={len(cat['core'])}, inline2={len(cat['inline2'])})")
@@ -2555,7 +2738,48 @@ def r7_rule_lookups(corpus: Corpus, rep: Report, tier: str):
                     rep.listed("C06.R7", k, site, f"{name!r} is not registered by markdown-it or the configured plugins (third-party rule?)")
 
 
-RULES = [r1_one_engine, r2_sibling_fences, r3_node_context, r4_state_restored, r5_result_fields, r6_text_conserved, r7_rule_lookups]
+@rule("C06.R8")
+def r8_input_limits(corpus: Corpus, rep: Report, tier: str):
+    _use(corpus)
+    rep.rule("C06.R8", "a limit that the docutils front end checks on every line of the document (settings.line_length_limit) is also checked on the text of an included file")
+    parse = corpus.func("parsers.docutils_:Parser.parse")
+    inc = corpus.func("mocking:MockIncludeDirective.run")
+    limits: dict[str, ast.AST] = {}
+    for n in parse.local_nodes():
+        if isinstance(n, ast.Compare) and len(n.ops) == 1 and isinstance(n.ops[0], (ast.Gt, ast.GtE, ast.Lt, ast.LtE)):
+            sides = [n.left, n.comparators[0]]
+            if any(isinstance(x, ast.Call) and dotted(x.func) == "len" for x in sides):
+                for x in sides:
+                    d = dotted(x) or ""
+                    if isinstance(x, ast.Attribute) and "settings" in d.split("."):
+                        limits[x.attr] = n
+    if not limits:
+        rep.ok("C06.R8", f"{parse.fq}|no per-line limit on the document text", parse.site(), "nothing to repeat for included text")
+        return
+    scope = {inc.fq: inc}
+    for _ in range(2):
+        for f in list(scope.values()):
+            for x in f.local_nodes():
+                if isinstance(x, ast.Call):
+                    h = _package_callee(x, f)
+                    if h is not None and not h.is_lambda and _owner_class(h) is not None and _owner_class(inc) is not None and _owner_class(h).fq == _owner_class(inc).fq:
+                        scope.setdefault(h.fq, h)
+    for attr, cmp_ in sorted(limits.items()):
+        k = f"{inc.fq}|settings.{attr} checked for included text as for the document"
+        hit = next(((n, f) for f in scope.values() for n in f.local_nodes() if (isinstance(n, ast.Attribute) and n.attr == attr) or (isinstance(n, ast.Constant) and n.value == attr)), None)
+        if hit is not None:
+            rep.ok("C06.R8", k, hit[1].module.site(hit[0]))
+        else:
+            rep.violation(
+                "C06.R8",
+                k,
+                inc.site(),
+                f"{parse.qualname} refuses a document with a line longer than settings.{attr} (`{short(cmp_, 60)}` at {parse.module.site(cmp_)}), but the include mock hands the file's text to the "
+                f"nested parse without that check (docutils' own Include performs it): the same over-long line is an error when written in place and is rendered silently when it comes from an included file",
+            )
+
+
+RULES = [r1_one_engine, r2_sibling_fences, r3_node_context, r4_state_restored, r5_result_fields, r6_text_conserved, r7_rule_lookups, r8_input_limits]
 
 
 # ---------------------------------------------------------------------------
@@ -2597,7 +2821,7 @@ def mutants(corpus: Corpus):
     nrt = base.func(R + "nested_render_text")
     c = find_node(nrt, lambda n: is_call(n, "parse") and len(n.args) == 2)
     add("c06-nested-parse-fresh-env", "C06.R1", base, c.args[1] if c else None, "{}", "self.md.parse", canary=True)
-    ife = find_node(nrt, lambda n: isinstance(n, ast.IfExp) and isinstance(n.test, ast.Name))
+    ife = find_node(nrt, lambda n: isinstance(n, (ast.IfExp, ast.If)) and isinstance(n.test, ast.Name) and any(is_call(x, "parseInline") for x in ast.walk(n)))
     add("c06-inline-flag-inverted", "C06.R1", base, ife.test if ife else None, f"not {ife.test.id}" if ife else "", "selected by the inline flag")
     inc = mk.func("MockIncludeDirective.run")
     c = find_node(inc, lambda n: is_call(n, "nested_render_text"))
@@ -2820,6 +3044,31 @@ def mutants(corpus: Corpus):
         else:
             out.append(("c06-include-stores-relative-docs-unconditionally", "guarded relative-docs store not found"))
 
+    # ---- round 10: reverts of the landed repairs
+    # 7eca433: the byte order mark of an included file
+    bom_st = find_node(inc, lambda n: isinstance(n, ast.Assign) and _strips_bom(n.value))
+    add("c06-revert-7eca433-include-keeps-bom", "C06.R6", mk, bom_st, "pass", "byte order mark")
+    # ddbf2af: nested text parsed with the front-matter rule
+    dis = find_node(nrt, lambda n: isinstance(n, ast.Expr) and is_call(n.value, "disable") and "front_matter" in unparse(n.value))
+    add("c06-revert-ddbf2af-front-matter-rule-active", "C06.R1", base, dis, "pass", "front_matter rule")
+    add("c06-front-matter-rule-misspelt", "C06.R1", base, dis.value.args[0] if dis is not None else None, '"frontmatter"', "front_matter rule")
+    c = find_node(np_, lambda n: is_call(n, "nested_render_text"))
+    add("c06-nested-parse-allows-front-matter", "C06.R1", mk, c, _seg(mk, c)[:-1].rstrip().rstrip(",") + ", allow_front_matter=True)" if c is not None else "", "passed only for the text of a file")
+    # the restore of the heading offset under a narrower test than the change (offset 0 is a value)
+    a = next((n for n in post if unparse(n.targets[0]) == "self._heading_offset"), None)
+    gw = find_node(rs, lambda n: isinstance(n, ast.If) and any(isinstance(x, ast.Assign) and unparse(x.targets[0]) == "self._heading_offset" for x in n.body))
+    if a is not None and gw is not None:
+        pname = next((x.id for x in ast.walk(gw.test) if isinstance(x, ast.Name)), None)
+        add("c06-heading-offset-restored-only-when-truthy", "C06.R4", base, a, f"if {pname}:\n" + _indent(base, a) + "    " + _seg(base, a), "_heading_offset")
+    else:
+        out.append(("c06-heading-offset-restored-only-when-truthy", "guarded heading-offset change not found"))
+    # R8: another per-line limit of the top-level parse that the include mock does not repeat
+    dparse = corpus.func("parsers.docutils_:Parser.parse")
+    dmod = dparse.module
+    cmp_ = find_node(dparse, lambda n: isinstance(n, ast.Compare) and any(isinstance(x, ast.Call) and dotted(x.func) == "len" for x in [n.left] + n.comparators) and any(isinstance(x, ast.Attribute) and x.attr == "line_length_limit" for x in [n.left] + n.comparators))
+    lim = next((x for x in ([cmp_.left] + cmp_.comparators) if isinstance(x, ast.Attribute)), None) if cmp_ is not None else None
+    add("c06-top-level-checks-another-limit", "C06.R8", dmod, lim, f"{_seg(dmod, lim.value)}.max_line_length" if lim is not None else "", "max_line_length")
+
     # ---- R5
     run = base.func(R + "run_directive")
     ctor = find_node(run, lambda n: isinstance(n, ast.Call) and {"content_offset", "block_text"} <= {k.arg for k in n.keywords})
@@ -2871,7 +3120,7 @@ def mutants(corpus: Corpus):
     add("c06-include-expands-tabs", "C06.R6", mk, c, f"{_seg(mk, c)}.expandtabs(8)" if c is not None else "", "expandtabs() applied")
     c = find_node(sub, lambda n: is_call(n, "nested_render_text") and not n.keywords)
     add("c06-substitution-value-stripped", "C06.R6", base, c.args[0] if c and c.args else None, f"{_seg(base, c.args[0])}.strip()" if c and c.args else "", "strip() applied")
-    e = find_node(sub, lambda n: isinstance(n, ast.Call) and base.resolve(dotted(n.func) or "") == "jinja2.Environment")
+    e = find_node(sub, lambda n: isinstance(n, ast.Call) and base.resolve(dotted(n.func) or "") in ENV_CLASSES)
     if e is not None:
         inner = _seg(base, e)
         add("c06-substitution-autoescape", "C06.R6", base, e, inner[:-1].rstrip().rstrip(",") + ", autoescape=True)", "template engine")
